@@ -26,4 +26,4 @@ def prop(pid):
     return deco
 
 
-from .rules import c16, c08, c05, c04, c10, c09, c01, c18, c19, c03, c14, c17, c06, c07, c02, c15, c20, c13  # noqa: E402,F401
+from .rules import c16, c08, c05, c04, c10, c09, c01, c18, c19, c03, c14, c17, c06, c07, c02, c15, c20, c13, c12  # noqa: E402,F401
